@@ -265,8 +265,10 @@ def check_program(lines):
     for k, line in enumerate(lines):
         if line.strip() == "":
             continue
-        _, rest = T.line_label(line)
+        lab, rest = T.line_label(line)
         toks = T.tokens(rest)
+        if lab is not None and not toks:
+            continue                      # a line that holds only its label (the source line had no statement)
         for st in T.split_statements(toks):
             if not st:
                 return k, "empty statement (nothing between two separators)"
